@@ -12,6 +12,7 @@ exit 2: the harness itself misbehaved (non-deterministic replay, build failure, 
 """
 import argparse
 import fcntl
+import hashlib
 import json
 import os
 import re
@@ -22,6 +23,8 @@ import time
 ROOT = os.path.dirname(os.path.dirname(os.path.abspath(__file__)))
 REPO = os.environ.get('VERIF_REPO', '/repo')
 NPROC = int(os.environ.get('VERIF_WORKERS', '0')) or (os.cpu_count() or 4)
+BUILDROOT = os.path.abspath(os.environ.get('VERIF_BUILD', os.path.join(ROOT, 'build')))
+OUTROOT = os.path.abspath(os.environ.get('VERIF_OUT', os.path.join(ROOT, 'out')))
 
 # per property: flavours and number of cases per tier  (flavour -> cases)
 BUDGET = {
@@ -49,21 +52,43 @@ def log(msg):
     print(msg, flush=True)
 
 
+def repo_digest():
+    h = hashlib.sha256()
+    inc = os.path.join(REPO, 'include')
+    for d, _, files in sorted(os.walk(inc)):
+        for fn in sorted(files):
+            p = os.path.join(d, fn)
+            h.update(p[len(inc):].encode())
+            with open(p, 'rb') as f:
+                h.update(f.read())
+    return h.hexdigest()
+
+
 def build(flavours):
-    os.makedirs(os.path.join(ROOT, 'build'), exist_ok=True)
-    lock = open(os.path.join(ROOT, 'build', '.lock'), 'w')
+    os.makedirs(BUILDROOT, exist_ok=True)
+    lock = open(os.path.join(BUILDROOT, '.lock'), 'w')
     fcntl.flock(lock, fcntl.LOCK_EX)
     try:
-        r = subprocess.run([sys.executable, os.path.join(ROOT, 'tools', 'gen_fleet.py'), os.path.join(ROOT, 'build', 'gen')])
+        r = subprocess.run([sys.executable, os.path.join(ROOT, 'tools', 'gen_fleet.py'), os.path.join(BUILDROOT, 'gen')])
         if r.returncode != 0:
             return False
+        digest = repo_digest()
         for fl in flavours:
             t0 = time.time()
-            r = subprocess.run(['make', '-C', os.path.join(ROOT, 'sim'), '-j%d' % NPROC, 'FLAVOUR=' + fl, 'REPO=' + REPO],
+            # objects must reflect the CONTENT of the repository's headers, whatever their timestamps say
+            stamp = os.path.join(BUILDROOT, fl, '.repo_digest')
+            old = open(stamp).read() if os.path.exists(stamp) else None
+            if old is not None and old != digest:
+                for fn in os.listdir(os.path.join(BUILDROOT, fl)):
+                    if fn.startswith('fleet_') and fn.endswith('.o'):
+                        os.unlink(os.path.join(BUILDROOT, fl, fn))
+            r = subprocess.run(['make', '-C', os.path.join(ROOT, 'sim'), '-j%d' % NPROC, 'FLAVOUR=' + fl, 'REPO=' + REPO, 'BUILDROOT=' + BUILDROOT],
                                stdout=subprocess.PIPE, stderr=subprocess.STDOUT, text=True)
             if r.returncode != 0:
                 log('BUILD FAILED (%s):\n%s' % (fl, r.stdout[-6000:]))
                 return False
+            with open(stamp, 'w') as f:
+                f.write(digest)
             log('build %s ok (%.1fs)' % (fl, time.time() - t0))
     finally:
         fcntl.flock(lock, fcntl.LOCK_UN)
@@ -72,7 +97,7 @@ def build(flavours):
 
 
 def worker_bin(fl):
-    return os.path.join(ROOT, 'build', fl, 'simworker')
+    return os.path.join(BUILDROOT, fl, 'simworker')
 
 
 class Slice:
@@ -117,7 +142,7 @@ class Slice:
         if crash_idx is None or crash_idx < 0:
             return None
         self.restarts += 1
-        if self.restarts > 50:
+        if self.restarts > 3:
             return None
         return crash_idx + 1
 
@@ -133,11 +158,14 @@ def run_batches(prop, tier, seed, budgets, outdir, time_cap):
         for s in slices:
             s.start(0)
             pending.append(s)
+        total_crashes = 0
         while pending:
             nxt = []
             for s in pending:
                 restart = s.finish()
-                if restart is not None and restart < s.hi:
+                total_crashes = sum(len(x.crashes) for x in slices)
+                # a crash storm (every run dies) is settled by the first few crashes: do not keep restarting
+                if restart is not None and restart < s.hi and total_crashes <= 12:
                     s.start(restart)
                     nxt.append(s)
             pending = nxt
@@ -213,7 +241,7 @@ def main():
     t_start = time.time()
     if not build(list(budgets.keys())):
         return 2
-    outdir = os.path.join(ROOT, 'out', prop)
+    outdir = os.path.join(OUTROOT, prop)
     os.makedirs(outdir, exist_ok=True)
     results = run_batches(prop, tier, seed, budgets, outdir, time_cap)
 
@@ -251,7 +279,7 @@ def main():
                 crashes.append(c)
         total_runs += fr; total_cases += fc
         per_flavour[fl] = {'cases': fc, 'runs': fr, 'wall_s': round(wall, 2), 'runs_per_hour': int(fr / wall * 3600) if wall > 0 else 0}
-        if fc == 0:
+        if fc == 0 and not any(s.crashes for s in slices):
             incomplete = True
 
     rc = 0
@@ -259,7 +287,8 @@ def main():
     reported = 0
     known_hits = {}
     # crashes (sanitizer reports, signals, watchdog) are violations of the property whose batch they happened in
-    for c in crashes:
+    crashes.sort(key=lambda c: (c['index'] is None, c['index'] if c['index'] is not None else 0))
+    for c in crashes[:6]:
         if c['index'] is None or c['index'] < 0:
             log('worker died without naming a run: rc=%s\n%s' % (c['rc'], c['stderr'][-1500:]))
             rc = max(rc, 2)
